@@ -1,11 +1,131 @@
-/- C19 property theorems -/
-import ThriftVerif.Lib.AsyncPP
+/-
+  C19 — concurrent persist: all files written or an error, under every schedule.
+
+  Property theorems about the LTS `AsyncPP.step F cfg` (Lib/AsyncPP.lean) instantiated with the
+  skeleton facts extracted from the working tree (`Generated.C19.facts`).  Every theorem is for
+  every job list, every concurrency, every failure oracle (`cfg`), and every reachable state,
+  i.e. every schedule — no bound.  Helper lemmas and the inductive invariant: Lib/AsyncPPLemmas.lean.
+-/
+import ThriftVerif.Lib.AsyncPPLemmas
 import ThriftVerif.Generated.C19
 
 namespace Props.C19
 open AsyncPP
 
-/-- the skeleton extracted from the working tree is the one the proofs are about -/
+abbrev F : Facts := Generated.C19.facts
+
+/-- the skeleton extracted from the working tree (channel capacities, select cases, `wg.Wait()`
+    before the early return, `wg.Add` before `go`, order of the worker's operations incl. deferred
+    `wg.Done(); <-processing`, final `wg.Wait()` then non-blocking receive) is the one the proofs use -/
 theorem facts_match : Generated.C19.facts = AsyncPP.expected := by decide
+
+/-- the inductive invariant: `processing` = #workers that have not released (+1 while the dispatcher
+    holds a fresh token), `wg` = #workers before `wg.Done()` (+1 between Add and go),
+    `|errs| + #workers that may still send ≤ #dispatched ≤ N`, every worker is in one of the phases of
+    the code with its own path/content, errors in `errs` are genuine and none is lost, … -/
+theorem inv (cfg : Cfg) (s : State) (h : Reach F cfg s) : Inv cfg s := by
+  rw [show F = expected from facts_match] at h; exact reach_inv h
+
+/-- `wg.Done()` never drives the WaitGroup counter negative -/
+theorem no_panic (cfg : Cfg) (s : State) (h : Reach F cfg s) : s.panicked = false :=
+  (inv cfg s h).noPanic
+
+/-- every reachable state in which the call has not both returned and seen all its goroutines exit
+    has an enabled transition: workers never block (`errs` has room, they hold a token), the dispatcher
+    blocks only while some worker still runs -/
+theorem no_deadlock (cfg : Cfg) (s : State) (h : Reach F cfg s) (hnf : s.final = false) :
+    ∃ l s', step F cfg s l = some s' := by
+  have := no_deadlock_inv (inv cfg s h) hnf
+  rwa [show F = expected from facts_match]
+
+/-- every transition strictly decreases `variant` — under any schedule, fair or not -/
+theorem termination (cfg : Cfg) (s s' : State) (l : Label) (h : Reach F cfg s)
+    (hs : step F cfg s l = some s') : variant cfg s' < variant cfg s := by
+  have I := inv cfg s h
+  rw [show F = expected from facts_match] at hs
+  exact variant_decreases I hs
+
+/-- hence every execution from the initial state has at most `10·N + 4` transitions; together with
+    `no_deadlock`: every maximal execution ends in a final state (returned, all goroutines exited) -/
+theorem terminates_within (cfg : Cfg) (ls : List Label) (s : State) (hp : Path F cfg init ls s) :
+    ls.length ≤ 10 * cfg.jobs.length + 4 := by
+  rw [show F = expected from facts_match] at hp
+  have := path_length hp Reach.init
+  simp [variant, init, rank, sumW] at this
+  omega
+
+/-- once the return value is set, every spawned worker is past `wg.Done()`: no PostProcess or write
+    of this call is in flight (it may still be before `<-processing`, which performs no I/O) -/
+theorem return_means_quiescent (cfg : Cfg) (s : State) (h : Reach F cfg s) (hr : s.ret ≠ none) :
+    ∀ w ∈ s.workers, w.quiescent = true :=
+  fun _ hw => quiescent_of_returned (inv cfg s h) hr hw
+
+/-- `nil` is returned only if all jobs were dispatched, none failed at any stage, and every job was
+    written under its own path with its own post-processed content -/
+theorem success_means_all_written (cfg : Cfg) (s : State) (h : Reach F cfg s) (hr : s.ret = some none) :
+    s.idx = cfg.jobs.length ∧ (∀ k, k < cfg.jobs.length → cfg.jobFails k = false) ∧
+    ∀ k p c, cfg.jobs[k]? = some (p, c) → (k, p, cfg.ppf p c) ∈ s.written :=
+  have I := inv cfg s h
+  ⟨(nil_no_failure I hr).1, (nil_no_failure I hr).2, fun _ _ _ hj => nil_written I hr hj⟩
+
+/-- … and the list of writes is exactly a permutation of the job list (each exactly once) -/
+theorem success_written_perm (cfg : Cfg) (s : State) (h : Reach F cfg s) (hr : s.ret = some none) :
+    (s.written.map (·.2)).Perm (cfg.jobs.map (fun j => (j.1, cfg.ppf j.1 j.2))) :=
+  written_perm (inv cfg s h) hr
+
+/-- if any stage of any dispatched job fails, the return value is an error (errors are never lost) -/
+theorem failure_reported (cfg : Cfg) (s : State) (h : Reach F cfg s) (r : Option Nat) (hr : s.ret = some r)
+    (hf : ∃ k, k < s.idx ∧ cfg.jobFails k = true) : ∃ e, r = some e ∧ cfg.jobFails e = true := by
+  have I := inv cfg s h
+  cases r with
+  | some e => exact ⟨e, rfl, (I.retErr e hr).2⟩
+  | none =>
+    obtain ⟨k, hk, hkf⟩ := hf
+    have := nil_no_failure I hr
+    rw [this.2 k (by omega)] at hkf
+    contradiction
+
+/-- a returned error is the error of a dispatched job that did fail -/
+theorem returned_error_genuine (cfg : Cfg) (s : State) (h : Reach F cfg s) (e : Nat)
+    (hr : s.ret = some (some e)) : e < s.idx ∧ cfg.jobFails e = true :=
+  (inv cfg s h).retErr e hr
+
+/-- no job is written twice -/
+theorem no_double_write (cfg : Cfg) (s : State) (h : Reach F cfg s) : (s.written.map (·.1)).Nodup :=
+  (inv cfg s h).wrNodup
+
+/-- every write carries the job's own path and its own (post-processed) content — in every state,
+    also on the error paths -/
+theorem written_own_content (cfg : Cfg) (s : State) (h : Reach F cfg s) :
+    ∀ x ∈ s.written, ∃ c0, cfg.jobs[x.1]? = some (x.2.1, c0) ∧ x.2.2 = cfg.ppf x.2.1 c0 :=
+  (inv cfg s h).wrOwn
+
+/-- at most `concurrency` (≥ 1) tokens are ever held -/
+theorem semaphore_bound (cfg : Cfg) (s : State) (h : Reach F cfg s) :
+    s.processing ≤ conc F cfg ∧ 1 ≤ conc F cfg := by
+  rw [show F = expected from facts_match] at h ⊢
+  exact ⟨reach_processing_le h, conc_pos cfg⟩
+
+/-! the hypotheses are satisfiable: a run that returns nil with everything written, and a run in
+    which a failing job's error is returned -/
+
+def cfgOk : Cfg := { jobs := [([97], [1]), ([98], [2])], conc := 1, failPP := fun _ => false,
+                     failWr := fun _ => false, ppf := fun p c => c ++ p }
+def cfgBad : Cfg := { cfgOk with failWr := fun k => k == 1 }
+
+def runOk : List Label :=
+  [.acquire, .add, .spawn, .work 0, .work 0, .work 0, .work 0, .acquire, .add, .spawn,
+   .work 1, .work 1, .work 1, .work 1, .finalWait, .finalRecv]
+def runBad : List Label :=
+  [.acquire, .add, .spawn, .work 0, .work 0, .work 0, .work 0, .acquire, .add, .spawn,
+   .work 1, .work 1, .work 1, .work 1, .work 1, .finalWait, .finalRecv]
+
+example : ∃ s, Reach F cfgOk s ∧ s.ret = some none ∧ s.final = true ∧ s.written.length = 2 := by
+  refine ⟨(runLabels F cfgOk init runOk).get (by decide), runLabels_reach Reach.init (Option.some_get _).symm, ?_⟩
+  decide
+
+example : ∃ s, Reach F cfgBad s ∧ s.ret = some (some 1) ∧ s.final = true ∧ s.written.length = 1 := by
+  refine ⟨(runLabels F cfgBad init runBad).get (by decide), runLabels_reach Reach.init (Option.some_get _).symm, ?_⟩
+  decide
 
 end Props.C19
